@@ -58,6 +58,18 @@ fn strip_groups(e: &Expr) -> &Expr {
     e
 }
 
+/// ... for values that cannot hold an attribute: `#[cfg(..)] $v` hangs the attribute on the group
+fn strip_plain_groups(e: &Expr) -> Option<&Expr> {
+    let mut e = e;
+    while let Expr::Group(g) = e {
+        if !g.attrs.is_empty() {
+            return None;
+        }
+        e = &g.expr;
+    }
+    Some(e)
+}
+
 /// what a bare (non string-contents) value is expected to convert to, if accepted
 type BareRule = fn(&Expr) -> Option<String>;
 /// reference parser of string contents, if the target has a quoted spelling
@@ -89,7 +101,7 @@ fn expr_ref<T: quote::ToTokens>(t: &T) -> Option<String> {
 }
 
 fn lit_of(e: &Expr) -> Option<Lit> {
-    match strip_groups(e) {
+    match strip_plain_groups(e)? {
         // (an attribute on the literal is part of what the user wrote; a bare literal cannot hold it)
         Expr::Lit(l) if !l.attrs.is_empty() => None,
         Expr::Lit(l) => Some(l.lit.clone()),
@@ -186,8 +198,8 @@ fn num_elems<T: std::str::FromStr + ToString>(a: &syn::ExprArray) -> Option<Stri
     let mut out = vec![];
     for el in &a.elems {
         // invisible groups are looked through, however many, as for every other value
-        let l = match strip_groups(el) {
-            Expr::Lit(l) if l.attrs.is_empty() => &l.lit,
+        let l = match strip_plain_groups(el) {
+            Some(Expr::Lit(l)) if l.attrs.is_empty() => &l.lit,
             _ => return None,
         };
         let v: T = match l {
@@ -593,14 +605,24 @@ fn group_first_element(text: &str, depth: usize) -> Option<proc_macro2::TokenStr
     if end == 0 {
         return None;
     }
-    let mut first: Vec<TokenTree> = inner[..end].to_vec();
+    // (an attribute in front of the element stays where the user wrote it, outside the fragment:
+    // `#[cfg(..)] $v`)
+    let mut lead = 0;
+    while lead + 1 < end && matches!(&inner[lead], TokenTree::Punct(p) if p.as_char() == '#') && matches!(&inner[lead + 1], TokenTree::Group(g) if g.delimiter() == Delimiter::Bracket) {
+        lead += 2;
+    }
+    if lead == end {
+        return None;
+    }
+    let attrs_in_front: Vec<TokenTree> = inner[..lead].to_vec();
+    let mut first: Vec<TokenTree> = inner[lead..end].to_vec();
     for _ in 0..depth {
         let span = first.first().unwrap().span().join(first.last().unwrap().span()).unwrap_or_else(|| first.last().unwrap().span());
         let mut g = Group::new(Delimiter::None, first.into_iter().collect());
         g.set_span(span);
         first = vec![TokenTree::Group(g)];
     }
-    let mut new_arr = Group::new(Delimiter::Bracket, first.into_iter().chain(inner[end..].iter().cloned()).collect());
+    let mut new_arr = Group::new(Delimiter::Bracket, attrs_in_front.into_iter().chain(first).chain(inner[end..].iter().cloned()).collect());
     new_arr.set_span(arr.span());
     Some(toks[..=eq].iter().cloned().chain(std::iter::once(TokenTree::Group(new_arr))).collect())
 }
